@@ -695,7 +695,84 @@ def r9_merged_index_state(ctx):
     r9_deleted_filter_scope(ctx, rule_id='R-C03.10')
 
 
+def r11_fold_copies_target_state(ctx, rule_id='R-C03.11'):
+    """When the optimiser folds a chain of renames into the first one it
+    copies the *target* of the last rename into it.  The target of a
+    RenameField is (new_field_name, db_column, db_table), of a RenameModel
+    (new_model_name, db_table): every constructor argument that describes
+    where the data ends up.  Copying only the new name leaves the values in
+    the column / table the intermediate rename named."""
+    ctx.rule(rule_id)
+    p = ctx.program
+    f = p.func(AM, 'AppMutator._process_mutation_batch')
+    base = p.cls('mutations.base', 'BaseMutation')
+    targets = {}
+    for c in base.all_subclasses():
+        if c.name not in ('RenameField', 'RenameModel'):
+            continue
+        init = c.methods.get('__init__')
+        attrs = set()
+        for n in walk_no_nested(init.node):
+            if isinstance(n, ast.Assign):
+                for t in n.targets:
+                    if is_self_attr(t) and isinstance(n.value, ast.Name) and \
+                            n.value.id in init.params:
+                        attrs.add(t.attr)
+        targets[c.name] = {a for a in attrs if not a.startswith('old_') and
+                           a not in ('model_name', 'field_name')}
+    ctx.floor('rename mutation classes', len(targets), 2)
+    from ..util import unit
+    copied = {}      # class name -> {attr: node}
+    for fn in unit(ctx, f):
+        parents = {}
+        for a in ast.walk(fn.node):
+            for c in ast.iter_child_nodes(a):
+                parents[id(c)] = a
+        for n in walk_no_nested(fn.node):
+            if not (isinstance(n, ast.Assign) and len(n.targets) == 1):
+                continue
+            t, v = n.targets[0], n.value
+            if not (isinstance(t, ast.Attribute) and
+                    isinstance(t.value, ast.Name) and
+                    isinstance(v, ast.Attribute) and v.attr == t.attr and
+                    t.attr.startswith(('new_', 'db_')) and
+                    'rename_mutation' in unparse(v.value)):
+                continue
+            # innermost isinstance(<target var>, <Class>) branch
+            cur, cname = n, None
+            while id(cur) in parents and cname is None:
+                par = parents[id(cur)]
+                if isinstance(par, ast.If) and cur in par.body:
+                    for x in ast.walk(par.test):
+                        if isinstance(x, ast.Call) and \
+                                call_name(x) == 'isinstance' and \
+                                len(x.args) == 2 and \
+                                unparse(x.args[0]) == t.value.id and \
+                                isinstance(x.args[1], ast.Name):
+                            cname = x.args[1].id
+                cur = par
+            if cname in targets:
+                copied.setdefault(cname, {}).setdefault(t.attr, n)
+    ctx.floor('rename fold sites in the optimiser', len(copied), 2)
+    for cname in sorted(copied):
+        need = targets[cname]
+        got = set(copied[cname])
+        n = sorted(copied[cname].values(), key=lambda x: x.lineno)[0]
+        missing = sorted(need - got)
+        if missing:
+            ctx.finding(f, n, 'folding a chain of %ss copies %s of the last '
+                        'rename but not %s: the data stays in the column / '
+                        'table named by an intermediate rename, while '
+                        'applying the renames one at a time moves it' % (
+                            cname, sorted(got), missing),
+                        key='fold-omits:%s:%s' % (cname, ','.join(missing)))
+        else:
+            ctx.ok(f, 'the %s fold copies the whole target (%s)' % (
+                cname, ', '.join(sorted(need))), n)
+
+
 def run(ctx):
+    r11_fold_copies_target_state(ctx)
     r9_merged_index_state(ctx)
     r8_initial_sentinel(ctx)
     r7_identity_membership(ctx)
